@@ -380,6 +380,13 @@ def eval_convex(ctx, case, v, T, tag):
         m_nb = r.faces()
         if m_nb != [[int(j) for j in row] for row in p.neighbors]:
             ctx.disagree("st.neighbors", case, [m_nb[:3], [[int(j) for j in row] for row in p.neighbors][:3]])
+        # _get_face_intersections: (i, j, shared edge); the direction of the edge is unspecified in Python
+        nint = r.one()
+        m_int = [tuple(int(x) for x in r.r[r.i + 4 * k:r.i + 4 * k + 4]) for k in range(nint)]
+        i_int = [(int(i), int(j), min(int(e[0]), int(e[1])), max(int(e[0]), int(e[1])))
+                 for i, j, e in p._get_face_intersections()]
+        if m_int != i_int:
+            ctx.disagree("st.neighbors:intersections", case, [m_int[:4], i_int[:4]])
     except ModelRaise as e:
         ctx.disagree("st.neighbors", case, "model raised " + e.kind)
     r = Tok(drv.F("st.edges", LF(faces), len(v)))
@@ -623,6 +630,20 @@ def eval_sort_faces(ctx, case, v, T):
                  % exc_kind(e), case, repr(e))
         got = ("E", exc_kind(e))
         q = None
+    # B: the faces_are_convex guard (both sides must refuse with ValueError)
+    if any(len(f) > 3 for f in faces_in):
+        try:
+            coxeter.shapes.Polyhedron(v2, [np.array(f) for f in faces_in]).sort_faces()
+            g_impl = "ok"
+        except Exception as e:
+            g_impl = exc_kind(e)
+        try:
+            ctx.driver.F("st.poly_sort_faces", 0, LV(v2), LF(faces_in), L([]), L([]))
+            g_mod = "ok"
+        except ModelRaise as e:
+            g_mod = e.kind
+        if g_impl != g_mod:
+            ctx.disagree("st.poly_sort_faces:convex-guard", case, [g_impl, g_mod])
     # B
     if angular_margin_ok(v2, faces_in):
         mod = model_sort_faces(ctx, v2, faces_in)
@@ -788,14 +809,14 @@ def make_case(rng, ctx, exact=False):
 
 
 def run(ctx):
-    n = ctx.budget(120, 2500)
+    n = ctx.budget(80, 2500)
     for i in range(n):
         case = make_case(ctx.rng, ctx, exact=(i % 5 == 4))
         ctx.case(case)
         eval_case(ctx, case)
     tabs = gen.tabulated_solids()
     if ctx.tier == "quick" and ctx.widen == 1:
-        idx = ctx.rng.choice(len(tabs), size=20, replace=False)
+        idx = ctx.rng.choice(len(tabs), size=12, replace=False)
         tabs = [tabs[i] for i in idx]
     for fam, name, v in tabs:
         v2, info = gen.place(ctx.rng, v, scale=1.0)
